@@ -19,10 +19,23 @@ whatever the faulting instruction left, the handler's first effective instructio
 def AtHandler (md : Module) (hm : HMap) (vm : Vm) : Prop :=
   vm.running = 1 ∧ handlerEntry md vm.ip = true ∧ ∃ st, hm[vm.ip]? = some (some st)
 
+/-- the calls in preparation the certificate records behind the instruction at `a`: MARK adds its height, CLEAR_STACK drops them all,
+every other instruction keeps them -/
+def marksNext (md : Module) (hm : HMap) (a : Nat) : List Nat :=
+  match md.code[a]?, hm[a]? with
+  | some i, some (some st) => if i.op = .MARK then st.h :: st.marks else if i.op = .CLEAR_STACK then [] else st.marks
+  | _, _ => []
+
+/-- what the certificate says about the edge `a → t` a step has taken: same function, the recorded calls in preparation are those
+behind `a`, and `t` continues a run of `INT` pushes only when the step was an `INT` falling through -/
+def EdgeOk (md : Module) (hm : HMap) (a t : Nat) : Prop :=
+  sameFn (funcStarts md) a t = true ∧ marksAt hm t = marksNext md hm a ∧
+  (intRun md t = [] ∨ (t = a + 1 ∧ ∃ i, md.code[a]? = some i ∧ i.op = .INT))
+
 /-- outcome of one step that stays inside the running activation -/
 def Succ (md : Module) (hm : HMap) (vm vm' : Vm) : Prop :=
   vm'.pp = vm.pp ∧ vm'.stackSize = vm.stackSize ∧
-  ((AtHeight md hm vm' ∧ sameFn (funcStarts md) vm.ip vm'.ip = true) ∨
+  ((AtHeight md hm vm' ∧ EdgeOk md hm vm.ip vm'.ip) ∨
    (AtHandler md hm vm' ∧ (vm'.ip = vm.ip + 1 ∨ excHandler md.exctab md.excCount vm.ip = some vm'.ip)) ∨
    vm'.running = 3)
 
@@ -92,6 +105,27 @@ theorem frame_at (hf : flowOk md hm = true) {a : Nat} {i : Instr} (hi : md.code[
 theorem fnParamsAt_same {a t : Nat} (h : sameFn (funcStarts md) a t = true) : fnParamsAt md t = fnParamsAt md a :=
   (sameFn_np h).1
 
+theorem marksNext_other {a : Nat} {i : Instr} {st : AbsSt} (hi : md.code[a]? = some i) (hs : hm[a]? = some (some st))
+    (h1 : i.op ≠ .MARK) (h2 : i.op ≠ .CLEAR_STACK) : marksNext md hm a = st.marks := by
+  unfold marksNext; simp only [hi, hs, h1, h2, if_false]
+
+theorem marksNext_MARK {a : Nat} {i : Instr} {st : AbsSt} (hi : md.code[a]? = some i) (hs : hm[a]? = some (some st))
+    (h1 : i.op = .MARK) : marksNext md hm a = st.h :: st.marks := by
+  unfold marksNext; simp only [hi, hs, h1, if_true]
+
+theorem marksNext_CLEAR {a : Nat} {i : Instr} {st : AbsSt} (hi : md.code[a]? = some i) (hs : hm[a]? = some (some st))
+    (h1 : i.op = .CLEAR_STACK) : marksNext md hm a = [] := by
+  unfold marksNext; simp [hi, hs, h1]
+
+/-- the fall-through edge `a → a + 1` -/
+theorem edge_next {a : Nat} {i : Instr} (hi : md.code[a]? = some i) (hsame : sameFn (funcStarts md) a (a + 1) = true)
+    (hm' : mAt hm (a + 1) (marksNext md hm a) = true) : EdgeOk md hm a (a + 1) := by
+  refine ⟨hsame, mAt_marksAt hm', ?_⟩
+  rw [intRun_succ md a i hi]
+  by_cases h : i.op = .INT
+  · exact Or.inr ⟨rfl, i, hi, h⟩
+  · exact Or.inl (by simp [h])
+
 /-- every handler address the exception table can return is a handler entry the height map reached -/
 theorem handler_entry (hf : flowOk md hm = true) {a hd : Nat} (h : excHandler md.exctab md.excCount a = some hd) :
     handlerEntry md hd = true ∧ ∃ st, hm[hd]? = some (some st) := by
@@ -127,7 +161,7 @@ theorem succ_generic (hf : flowOk md hm = true) (orc : Oracle) (vm vm' : Vm) (i 
     (hexec : ∀ s2, (exec md i orc).run { vm with ip := vm.ip + 1 } = .ok ((), s2) →
       s2.pp = vm.pp ∧ s2.stackSize = vm.stackSize ∧ (s2.running = 1 ∨ s2.running = 2 ∨ s2.running = 3) ∧
       (s2.running = 2 → s2.ip = vm.ip + 1) ∧
-      (s2.running = 1 → AtHeight md hm s2 ∧ sameFn (funcStarts md) vm.ip s2.ip = true)) :
+      (s2.running = 1 → AtHeight md hm s2 ∧ EdgeOk md hm vm.ip s2.ip)) :
     Succ md hm vm vm' := by
   obtain ⟨s2, he, hcase⟩ := step_exec md orc vm vm' i hi hstep
   obtain ⟨a1, a2, a3, a4, a5⟩ := hexec s2 he
